@@ -364,7 +364,7 @@ def t_join(sep: str, lst: AList, elem_nonempty: bool) -> AStr:
 
 # ---------------------------------------------------------------------- interpreter
 class Interp:
-    def __init__(self, fn_node: ast.AST, param: str, consts: Optional[Dict[str, AVal]] = None):
+    def __init__(self, fn_node: ast.AST, param: str, consts: Optional[Dict[str, AVal]] = None, module: Optional[ast.AST] = None):
         self.fn = fn_node
         self.param = param
         self.returns: List[Tuple[AStr, ast.Return, Dict[str, AVal]]] = []
@@ -376,6 +376,8 @@ class Interp:
         root = fn_node
         while getattr(root, "_parent", None) is not None:
             root = root._parent  # type: ignore[attr-defined]
+        if module is not None and not isinstance(root, ast.Module):
+            root = module  # a detached copy (sa/flatten.py): the module it came from
         self.compiled: Dict[str, str] = {}
         for st in getattr(root, "body", []) if isinstance(root, ast.Module) else []:
             if isinstance(st, (ast.Assign, ast.AnnAssign)) and st.value is not None and isinstance(st.value, ast.Call) and dotted(st.value.func) == "re.compile" \
@@ -446,6 +448,27 @@ class Interp:
             return out
         if isinstance(st, ast.Raise):
             return None
+        if isinstance(st, ast.Break):
+            if not getattr(self, "_breaks", None):
+                raise Unsupported("break outside a one-shot loop")
+            self._breaks[-1].append(env)
+            return None
+        if isinstance(st, ast.While) and isinstance(st.test, ast.Constant) and st.test.value is True and not st.orelse \
+                and not any(isinstance(x, ast.Continue) for x in ast.walk(st)):
+            # `while True: ...; break` - the shape sa/flatten.py gives a written-out helper with several exits: one pass, exits at `break`
+            if not hasattr(self, "_breaks"):
+                self._breaks = []
+            self._breaks.append([])
+            fall = self.block(st.body, env)
+            outs = self._breaks.pop()
+            if fall is not None:
+                raise Unsupported("a `while True` loop whose body can complete without `break`")
+            if not outs:
+                return None
+            cur_ = outs[0]
+            for o in outs[1:]:
+                cur_ = self._join_env(cur_, o)
+            return cur_
         if isinstance(st, ast.For) and isinstance(st.target, ast.Name) and not st.orelse:
             it = self.ev(st.iter, env)
             if not isinstance(it, AList):
@@ -711,3 +734,21 @@ def uncaught_keywords(how: Optional[str], shape: AStr) -> List[str]:
             continue
         out.append(k)
     return out
+
+
+def interpret(fn, param: str):
+    """Interp over Function `fn` as written; when it uses an operation outside the modelled fragment (typically a call of a helper of its
+    own class, `NameSanitizer._tail(x)`), once more over the function with its local helpers written out (sa/flatten.py)."""
+    it = Interp(fn.node, param)
+    try:
+        it.run()
+        return it
+    except Unsupported as first:
+        from sa.flatten import flatten
+
+        f2 = flatten(fn)
+        if f2 is fn:
+            raise first
+        it = Interp(f2.node, param, module=fn.module.tree)
+        it.run()
+        return it
